@@ -98,6 +98,15 @@ def gen(seed, tier):
             mvcc.gen_script(r, ncell, r.randint(2, 6), write_p=0.7,
                             rc_p=0.15, abort_p=0.05, misc_p=0.08)
             for _ in range(nclient)]
+        if kind == 'mapping' and r.random() < 0.5:
+            # a packing thread beside the committers of a storage that
+            # keeps everything in memory; line-level pre-emption inside it
+            case['packers'] = [{'delay': r.randrange(0, 80),
+                                'dt': r.choice((0.0, 5.0))}
+                               for _ in range(r.choice((1, 2)))]
+            case['sched']['fine'] = {
+                'p': r.choice((0.1, 0.3)),
+                'prefix': seams.repo_src() + '/ZODB/MappingStorage.py'}
         if r.random() < 0.25:
             # bystanders asking the storage itself (getTid, history,
             # loadSerial ... go through its own file handle)
@@ -278,15 +287,24 @@ def run(case):
         w, s = run_storage_arm(case)
         outcomes = w.outcomes
     else:
-        w, s = mvcc.run_world(case)
+        extra = []
+        packs = []
+        if case.get('packers'):
+            # packs of the storage while the clients commit (the conflict
+            # test of a store must not look at a storage half collected)
+            from . import c08
+            extra = [('packer%d' % i, c08.packer_task(spec, packs))
+                     for i, spec in enumerate(case['packers'])]
+        w, s = mvcc.run_world(case, extra_tasks=extra)
         outcomes = [t.outcomes for t in w.tasks]
         try:
             log = w.final_log()
-            mvcc.check_no_lost_updates(w, log)
-            mvcc.check_read_current(w, log)
-            mvcc.check_snapshots(w, log)
-            mvcc.check_pokers(w, log, w.poker_results)
-            mvcc.check_serials(w, log)
+            mvcc.check_no_lost_updates(w, log, allow_gaps=bool(packs))
+            if not packs:
+                mvcc.check_read_current(w, log)
+                mvcc.check_snapshots(w, log)
+                mvcc.check_serials(w, log)
+            mvcc.check_pokers(w, log, w.poker_results, packed=bool(packs))
             if not s.deadlock and not s.capped:
                 mvcc.check_final_state(w, log)
                 # every connection can commit afterwards (stale copies were
